@@ -290,6 +290,28 @@ fn drawables(tier: Tier) -> Vec<Drw> {
 
 fn run_part(run: &mut Run) {
     let tier = run.tier;
+    if run.part == "catalogue" {
+        // the whole shape catalogue (all sizes, radii, angles) x S(2) x three adapter stacks
+        run.sweep_vec(
+            "catalogue-x-adapters",
+            "the complete shape catalogue (rectangles, circles, ellipses, rounded rectangles with equal and unequal radii, lines, arcs, sectors) and all triangles of a 4x4 grid x S(2) x adapter stacks {none, nested-3} (thorough: all five same-colour stacks)",
+            || {
+                let mut shapes = shape_catalogue(false, (-2, -3));
+                shapes.extend(tri_grid(4, 2, -3, -2));
+                let mut v = vec![];
+                for s in shapes {
+                    for sty in styles(2) {
+                        for &adapter in if tier.is_thorough() { &[0u8, 1, 2, 3, 5][..] } else { &[0u8, 5][..] } {
+                            v.push(Case { d: Drw::Prim { shape: s.clone(), sty, dotted: false }, adapter });
+                        }
+                    }
+                }
+                v
+            },
+            check,
+        );
+        return;
+    }
     run.sweep_vec(
         "drawables-x-adapters",
         "reduced drawable catalogue (every primitive kind x sizes x S(3/5), dotted rectangles, thin/thick/translated polylines, images, sub-images, decorated multi-line text, draw_whitespace, Pixel, pixel iterators) x 6 adapter stacks; inside each case: both target flavours, the fault-free run and one run per k in 1..=n",
@@ -315,7 +337,7 @@ fn main() {
         level: "fault_enumeration",
         rule: "one case = (drawable, adapter stack); for both target flavours the fault-free run gives n calls, then for every k in 1..=n the run whose k-th call fails is executed (counter fault_runs); non-trivial = the fault-free run makes at least one call; checked per faulty run: draw returns exactly Err(Fault(k)), no further call, the k-1 earlier calls equal the fault-free ones (kind, area, pixels/colours), the failing call has the kind and area of the k-th fault-free call",
         assumptions: &["one fault per execution (a second one is unreachable if the property holds, and 'no further call' is itself checked)", "bounded to the listed drawables and adapter stacks"],
-        parts: |_| vec![PartSpec::new("all", "verif")],
+        parts: |_| vec![PartSpec::new("all", "verif"), PartSpec::new("catalogue", "verif")],
         run_part,
         required_classes: |_| vec!["adapter-none", "adapter-clipped", "adapter-translated", "adapter-cropped", "adapter-color_converted-over-clipped", "adapter-nested-3", "rect", "circle", "ellipse", "rrect", "triangle", "line", "arc", "sector", "polyline", "dotted-rectangle", "image", "sub-image", "text", "draw_whitespace", "pixel", "pixel-iterator", "three-or-more-calls", "native-fill_contiguous", "native-fill_solid", "draw_iter"],
         crash_is_verdict: false,
